@@ -168,6 +168,9 @@ type Reply struct {
 	ReturnAfter int
 	Panic       any
 	EmptyWrites bool // interleave zero-length writes
+	// LowerCaseTrailerDecl announces declared trailers in lower case (values are still set
+	// under the canonical key, which is where net/http looks them up).
+	LowerCaseTrailerDecl bool
 }
 
 // Backend is a scripted http.Handler that records what it saw.
@@ -227,6 +230,9 @@ func WriteReply(w http.ResponseWriter, rep *Reply, errs *[]string) {
 	}
 	if rep.DeclaredTrailers && len(out.Trailer) > 0 {
 		for k := range out.Trailer {
+			if rep.LowerCaseTrailerDecl {
+				k = strings.ToLower(k)
+			}
 			h.Add("Trailer", k)
 		}
 	}
@@ -389,4 +395,12 @@ func IsVanguardPanic(p *drive.PanicInfo) bool {
 		}
 	}
 	return true
+}
+
+// SeenHeader returns the headers of the first request the backend saw.
+func (b *Backend) SeenHeader() http.Header {
+	if b.Seen == nil {
+		return nil
+	}
+	return b.Seen.Header
 }
